@@ -123,6 +123,9 @@ class kPathCoverCycles(walkmodel.AbstractWalkModelDiGraph):
         self.edges_to_ignore = self.G.source_sink_edges.union(edges_to_ignore_internal)
 
         self.k = k
+        if not isinstance(self.k, int) or self.k <= 0:
+            utils.logger.error(f"{__name__}: k must be a positive integer, not {self.k}")
+            raise ValueError(f"k must be a positive integer, not {self.k}")
         self.subset_constraints_coverage = subset_constraints_coverage
         
         self._solution = None
